@@ -116,6 +116,16 @@ CLAIMED.update({
    design="§7 C18", technique="contract-based deductive verification (closures, map-range ghost, pure dynamic calls; SMT)"),
 })
 
+CLAIMED.update({
+ "C17": dict(
+   text="PARTIAL. Decided: every loaded rule group is registered exactly once with a fresh CheckerInfo that copies the group's name, tags, summary, before/after text and note field by field "
+        "and is marked EmbeddedRuleguard; the per-checker engine's group filter accepts exactly that group; getCheckersInfo hands out one entry per prototype (copy sharing the parameter map); "
+        "the doc sub-command prints one line per registered checker; the default value of -enable lists exactly the checkers without the experimental/opinionated/performance/security tag "
+        "(shared with C06). NOT decided, and not claimed: that the checked-in precompiled rule data equals what compiling checkers/rules/rules.go produces today (an equality between an "
+        "artefact and a generator run - no function carries it), and the rendered docs/overview.md (text templates).",
+   design="§7 C17", technique="contract-based deductive verification (call-site clauses, per-iteration postconditions; SMT)"),
+})
+
 NA_REASON_PENDING = "check not built yet in this round (planned, DESIGN §7); not claimed until its obligations discharge"
 NOT_APPLICABLE = {
  "C11": "no contract within reach can state equality of Go-regexp match behaviour between a pattern and the string printed from a third-party parse tree (DESIGN §8)",
